@@ -95,6 +95,15 @@ def run(ctx):
             ctx.fail(f"loaded records differ from the sig lines written in the file (section {sec}: loaded {str(got.get(sec))[:200]}, written {str(exp.get(sec))[:200]}; len {n} vs {nsig} sig lines)",
                      op=line, impl=a, model=b, extra={"stream": "generator-oracle"})
         ctx.hist["oracle:checked"] += 1
+    # 1b. the same Database object loaded again and again: the dump is always that of the LAST file
+    ops = []
+    for _ in range(ctx.n(700, 15000)):
+        steps = []
+        for _k in range(r.randint(2, 4)):
+            f = dbgen.valid_file(r, max_sections=3, fancy=False)
+            steps += ["L:" + hx(f.text(term="\n")), "D"]
+        ops.append("histq\t" + "\t".join(steps))
+    ctx.correspond(ops, nontrivial=lambda l, a: a.count("ok during") >= 2, label="reloads", canon=canon, tagger=lambda l, a: "reload")
     # 2. structured signatures: every field of the grammars
     ops = []
     for _ in range(ctx.n(30000, 600000)):
